@@ -190,6 +190,20 @@ def recoverVS (cfg : Cfg) (d : Disk) : VS × Bool :=
     | none => (vs0, false)          -- "create journal reader error"
     | some m => replay vs0 m
 
+/-- declared step orders of functions whose order the definitions above/below follow literally
+(each is tied to the regenerated call sequence of the Go function in Props/C01) -/
+def persistEditLogsSteps : List String := ["editLog.marshal", "writer.Write", "writer.Sync"]       -- one `appendRec` per edit log
+def recoverSteps : List String := ["vs.initJournal", "vs.recover", "vs.initJournal"]               -- no CURRENT: initJournal | recover, initJournal
+def newStoreSteps : List String :=
+  ["mkDirFunc", "newFileLockFunc", "lock.Lock", "store1.dumpStoreInfo", "newFamily", "versions.Recover"]
+def createSnapshotSteps : List String := ["vs.createFamilySnapshot", "vs.createStoreSnapshot"]
+def famSnapshotSteps : List String := ["CreateNewFile", "CreateSequence", "CreateNewReferenceFile", "CreateNewRollupFile"]
+def newTableBuilderSteps : List String := ["store.nextFileNumber", "f.addPendingOutput", "table.NewStoreBuilder"]
+def installCompactionSteps : List String := ["compaction.MarkInputDeletes", "compaction.AddFile", "family.commitEditLog"]
+def moveCompactionSteps : List String := ["compaction.DeleteFile", "compaction.AddFile", "family.commitEditLog"]
+def compactionDeferSteps : List String := ["snapshot.Close", "f.deleteObsoleteFiles"]
+def createFamilySteps : List String := ["s.dumpStoreInfo", "newFamilyFunc"]                        -- writeOptions, then mkdirFam
+
 /-- the step names of newStore's deferred function, in code order -/
 def openDeferSteps : List String := ["store1.close", "store1.deleteObsoleteFiles", "store1.deleteFamilyObsoleteFiles"]
 
